@@ -42,12 +42,11 @@ func (m *Machine) evUpdate(e *E, in []*val.V, c Ctx) []*val.V {
 		return in
 	case "addassign", "subassign", "mulassign":
 		op := map[string]string{"addassign": "add", "subassign": "sub", "mulassign": "mul"}[e.Op]
-		L := m.ev(e.A[0], in, c)
-		for _, cand := range L {
-			clone := cand.Copy()
-			calcE := &E{Op: op, S: e.S, A: []*E{{Op: "ref", V: clone}, e.A[1]}}
-			for _, n := range in {
-				// the operand is evaluated relative to the context node, read-only
+		// each match m of the left side receives `m op e`, e evaluated (read-only) relative to the context node m was reached from
+		for _, n := range in {
+			for _, cand := range m.ev(e.A[0], []*val.V{n}, c) {
+				clone := cand.Copy()
+				calcE := &E{Op: op, S: e.S, A: []*E{{Op: "ref", V: clone}, e.A[1]}}
 				for _, r := range m.binaryRef(calcE, clone, n, c.ro()) {
 					assignInto(cand, r)
 				}
